@@ -17,7 +17,7 @@ TIERS = {
     "quick": {"ideal": "IdealQuick.cfg", "orders": "OrdersQuick.cfg", "asbuilt": "AsBuiltQuick.cfg", "k": 2,
               "pairs": "neighbours", "pair_paths": None},
     "thorough": {"ideal": "IdealThorough.cfg", "orders": "OrdersThorough.cfg", "asbuilt": "AsBuiltThorough.cfg", "k": 3,
-                 "pairs": "all", "pair_paths": 3},
+                 "pairs": "all", "pair_paths": 1},
 }
 NEG = [("NegForgetsPersist.cfg", "WriteThrough"), ("NegPersistsBeforeStoring.cfg", "WriteThrough"),
        ("NegClobbersOther.cfg", "WriteThrough"), ("NegClobbersOtherFrame.cfg", "Frame"),
@@ -170,7 +170,7 @@ def run(tier, seed):  # pylint: disable=too-many-locals,too-many-statements,too-
             for q in chosen:
                 items.append({"target": t, "attrs": w, "path": q, "graph": "track", "variant": "cover" if full else "cover-sub"})
             # a share of the all-orders behaviours, dealt round-robin over all bindings
-            share = 2 if tier == "quick" else 12
+            share = 2 if tier == "quick" else 8
             for _ in range(share):
                 items.append({"target": t, "attrs": w, "path": orders[o_idx % len(orders)], "graph": "track",
                               "variant": "orders"})
